@@ -2855,6 +2855,7 @@ func runC05(c *Ctx) {
 	}
 	c.Assume = append(c.Assume, "terminal sizes are at least 1x1 (ROWS>=1, COLS>=1)", "ansi.Print.Width >= 0 (computed by uniseg)", "bytes stored by the parser action `param` are digits, ';' or ':' (C02 transition table)")
 	defer debug.SetGCPercent(debug.SetGCPercent(1000)) // the engine allocates many small maps next to a large, static program
+	c05Normalise(c)
 	e := c05Engine(c)
 	if e.pk == nil || e.model == nil || e.cellT == nil {
 		c.undecided("C05.b", "widgets/term", 0, "package widgets/term, type Model or type cell not found")
